@@ -52,6 +52,11 @@ func ocspAlphabet() []ocspBehav {
 }
 
 func runOCSPCase(w *CaseWriter, bs []ocspBehav, entry int, st time.Time, nCRL int, labels []string) {
+	runOCSPCaseSerial(w, bs, entry, st, nCRL, labels, 0)
+}
+
+// serialLen > 0: the checked certificate has a serial number of that many octets (GET / POST request encodings)
+func runOCSPCaseSerial(w *CaseWriter, bs []ocspBehav, entry int, st time.Time, nCRL int, labels []string, serialLen int) {
 	var kinds []string
 	for _, b := range bs {
 		switch b.Kind {
@@ -61,7 +66,12 @@ func runOCSPCase(w *CaseWriter, bs []ocspBehav, entry int, st time.Time, nCRL in
 			kinds = append(kinds, "ok")
 		}
 	}
-	chain := buildRevChain("cs", []certSlots{{OCSP: kinds, NCRL: nCRL}}, nil, nil)
+	var big map[int]int
+	if serialLen > 0 {
+		big = map[int]int{0: serialLen}
+		labels = append(labels, fmt.Sprintf("serial-octets=%d", serialLen))
+	}
+	chain := buildRevChain("cs", []certSlots{{OCSP: kinds, NCRL: nCRL}}, nil, big)
 	urls := chain.xs()[0].OCSPServer
 	m := map[string]ocspBehav{}
 	var names []string
@@ -95,6 +105,13 @@ func genC04(tier string, rng *RNG, w *CaseWriter) {
 			for _, entry := range []int{0, 1} {
 				runOCSPCase(w, []ocspBehav{a}, entry, st, 0, nil)
 			}
+		}
+	}
+	// request encodings: serial numbers that keep the request below 255 characters (GET), below it only before
+	// URL-escaping (60 octets), and far above it (POST)
+	for k, a := range al {
+		for _, n := range []int{20, 60, 150} {
+			runOCSPCaseSerial(w, []ocspBehav{a}, k%2, time.Time{}, 0, nil, n)
 		}
 	}
 	for i, a := range al {
